@@ -15,3 +15,6 @@ open Rtsp.Ledger.C11
 #print axioms session_timeout_releases
 #print axioms teardown_keeps_invariant
 #print axioms other_conns_unaffected
+#print axioms udp_port_collision_removes_registration
+#print axioms timeout_always_enabled
+#print axioms pointers_valid
